@@ -1,6 +1,8 @@
 import Apko.Model.FS
 import Apko.Proofs.Lemmas.FSAtomic
 import Apko.Proofs.Lemmas.FSData
+import Apko.Proofs.Lemmas.FSInvStep
+import Apko.Generated.FS
 /-! C17 — the virtual file systems behave like a file system (theorems over `Model/FS.lean`) -/
 namespace Apko.C17
 open Apko Apko.Path Apko.FS
@@ -16,6 +18,40 @@ theorem readdir_sorted (fs : FS) (d : Ino) :
     (fun a b => by simp only [Bool.or_eq_true, decide_eq_true_eq]; exact name_le_total a.1 b.1)
     (fs.node d).children
   simpa [readdir, sortNames] using this
+
+/-- listings are complete: exactly the entries of the directory node, each once -/
+theorem readdir_complete (fs : FS) (d : Ino) : (readdir fs d).Perm (fs.node d).children := by
+  simpa [readdir, sortNames] using List.mergeSort_perm (fs.node d).children _
+
+/-- listings are duplicate-free (names inside one directory are distinct) -/
+theorem readdir_nodup (fs : FS) (hi : Inv fs) (d : Ino) : ((readdir fs d).map (·.1)).Nodup :=
+  ((readdir_complete fs d).map _).nodup_iff.mpr (hi.names d)
+
+/-- **readdir_complete_sorted_nodup** for every reachable state -/
+theorem readdir_complete_sorted_nodup (fs : FS) (hi : Inv fs) (d : Ino) :
+    (readdir fs d).Perm (fs.node d).children ∧
+    (readdir fs d).Pairwise (fun a b => a.1 ≤ b.1) ∧ ((readdir fs d).map (·.1)).Nodup :=
+  ⟨readdir_complete fs d, readdir_sorted fs d, readdir_nodup fs hi d⟩
+
+/-- the `ReadDir` operation answers with exactly that listing -/
+theorem readDir_op (c : Cfg) (fs : FS) (p : Text) (i : Ino) (h : getNode c fs p = .ok i)
+    (hd : (fs.node i).dir = true) :
+    ∃ es, (step c fs (.readDir p)).2 = .ok (.entries es) ∧ es.map (·.name) = (readdir fs i).map (·.1) := by
+  refine ⟨(sortNames (fs.node i).children).map fun e => statOf c (fs.node e.2) e.1 (join2 p e.1), ?_, ?_⟩
+  · simp only [step, h, hd]; rfl
+  · simp [readdir, statOf]
+
+/-! ### the structural invariant -/
+
+/-- **inv_step** (re-exported from `Lemmas/FSInvStep.lean`) -/
+theorem inv_step (c : Cfg) (fs : FS) (op : Op) (hi : Inv fs) (hb : DirBit fs) : Inv (step c fs op).1 :=
+  FS.inv_step c fs op hi hb
+
+theorem inv_empty : Inv FS.empty := Inv.empty
+
+/-- resolution only ever returns live inodes -/
+theorem resolve_live (c : Cfg) (fs : FS) (hi : Inv fs) (p : Text) (i : Ino) (h : getNode c fs p = .ok i) :
+    i < fs.nodes.length := getNode_live hi c p i h
 
 /-! ### an operation that reports failure leaves the observable state unchanged -/
 
@@ -212,5 +248,118 @@ theorem write_then_readAt (c : Cfg) (fs : FS) (hi hj ino off : Nat) (p : Text) (
     have : 0 < p.length := List.length_pos_iff.mpr hp
     omega
   rw [readAt_window c _ hj hd p.length off h1 h2 h3 h4 hlen, h5, hdata, writeAt_read_back _ _ _ hp]
+
+/-! ### ties to the source (regenerated on every run by `extract/fs.go`) -/
+
+theorem tie_maxLinks_memfs : Generated.maxLinksMemfs = FS.maxLinks := by rfl
+theorem tie_maxLinks_tarfs : Generated.maxLinksTarfs = FS.maxLinks := by rfl
+theorem tie_stmtsMemfs_Write : Generated.stmtsMemfs_Write = (["if f.node == nil || f.fs == nil { return 0, os.ErrClosed }",
+  "if f.openMode&os.O_APPEND != 0 && f.openMode&os.O_RDWR != 0 && f.openMode&os.O_WRONLY != 0 { return 0, errors.New(\"file not opened in write mode\") }",
+  "if len(p) == 0 { return 0, nil }",
+  "if f.offset+int64(len(p)) > int64(len(f.node.data)) { if hole := f.offset - int64(len(f.node.data)); hole > 0 { f.node.data = append(f.node.data, make([]byte, hole)...) } f.node.data = append(f.node.data[:f.offset], p...) } else { copy(f.node.data[f.offset:], p) }",
+  "f.offset += int64(len(p))",
+  "return len(p), nil"] : List String) := by rfl
+theorem tie_stmtsMemfs_Seek : Generated.stmtsMemfs_Seek = (["if f.node == nil || f.fs == nil { return 0, os.ErrClosed }",
+  "var abs int64",
+  "switch whence { case io.SeekStart: abs = offset case io.SeekCurrent: abs = f.offset + offset case io.SeekEnd: abs = int64(len(f.node.data)) + offset default: return 0, errors.New(\"invalid whence\") }",
+  "if abs < 0 { return 0, fs.ErrInvalid }",
+  "f.offset = abs",
+  "return f.offset, nil"] : List String) := by rfl
+theorem tie_stmtsMemfs_Read : Generated.stmtsMemfs_Read = (["if f.node == nil || f.fs == nil { return 0, os.ErrClosed }",
+  "if f.offset >= int64(len(f.node.data)) { return 0, io.EOF }",
+  "n := copy(b, f.node.data[f.offset:])",
+  "f.offset += int64(n)",
+  "return n, nil"] : List String) := by rfl
+theorem tie_stmtsMemfs_ReadAt : Generated.stmtsMemfs_ReadAt = (["if f.node == nil || f.fs == nil { return 0, os.ErrClosed }",
+  "if off < 0 { return 0, fs.ErrInvalid }",
+  "if off >= int64(len(f.node.data)) { return 0, io.EOF }",
+  "n = copy(p, f.node.data[off:])",
+  "return n, nil"] : List String) := by rfl
+theorem tie_stmtsMemfs_newMemFile : Generated.stmtsMemfs_newMemFile = (["m := &memFile{ node: node, fs: memfs, name: name, openMode: openMode, }",
+  "if openMode&os.O_APPEND != 0 { m.offset = int64(len(node.data)) }",
+  "if openMode&os.O_TRUNC != 0 { node.data = nil }",
+  "return m"] : List String) := by rfl
+theorem tie_stmtsMemfs_Remove : Generated.stmtsMemfs_Remove = (["parent := filepath.Dir(name)",
+  "base := filepath.Base(name)",
+  "anode, err := m.getNode(parent)",
+  "if err != nil { return err }",
+  "anode.mu.Lock()",
+  "defer anode.mu.Unlock()",
+  "if _, ok := anode.children[base]; !ok { return os.ErrNotExist }",
+  "if anode.children[base].linkCount > 0 { anode.children[base].linkCount-- }",
+  "delete(anode.children, base)",
+  "return nil"] : List String) := by rfl
+theorem tie_stmtsMemfs_Chmod : Generated.stmtsMemfs_Chmod = (["anode, err := m.getNode(path)",
+  "if err != nil { return err }",
+  "anode.mode = perm | (anode.mode & os.ModeType)",
+  "return nil"] : List String) := by rfl
+theorem tie_stmtsTarfs_Write : Generated.stmtsTarfs_Write = (["if f.node == nil || f.fs == nil { return 0, fs.ErrClosed }",
+  "if f.rc != nil { return 0, fs.ErrInvalid }",
+  "if f.openMode&os.O_APPEND != 0 && f.openMode&os.O_RDWR != 0 && f.openMode&os.O_WRONLY != 0 { return 0, errors.New(\"file not opened in write mode\") }",
+  "if len(p) == 0 { return 0, nil }",
+  "if f.offset+int64(len(p)) > int64(len(f.node.data)) { if hole := f.offset - int64(len(f.node.data)); hole > 0 { f.node.data = append(f.node.data, make([]byte, hole)...) } f.node.data = append(f.node.data[:f.offset], p...) } else { copy(f.node.data[f.offset:], p) }",
+  "f.offset += int64(len(p))",
+  "return len(p), nil"] : List String) := by rfl
+theorem tie_stmtsTarfs_Seek : Generated.stmtsTarfs_Seek = (["if f.node == nil || f.fs == nil { return 0, fs.ErrClosed }",
+  "if f.rc != nil { return 0, fs.ErrInvalid }",
+  "var abs int64",
+  "switch whence { case io.SeekStart: abs = offset case io.SeekCurrent: abs = f.offset + offset case io.SeekEnd: abs = int64(len(f.node.data)) + offset default: return 0, errors.New(\"invalid whence\") }",
+  "if abs < 0 { return 0, fs.ErrInvalid }",
+  "f.offset = abs",
+  "return f.offset, nil"] : List String) := by rfl
+theorem tie_stmtsTarfs_Read : Generated.stmtsTarfs_Read = (["if f.node == nil || f.fs == nil { return 0, fs.ErrClosed }",
+  "if f.rc != nil { return f.rc.Read(b) }",
+  "if f.offset >= int64(len(f.node.data)) { return 0, io.EOF }",
+  "n := copy(b, f.node.data[f.offset:])",
+  "f.offset += int64(n)",
+  "return n, nil"] : List String) := by rfl
+theorem tie_stmtsTarfs_ReadAt : Generated.stmtsTarfs_ReadAt = (["if f.node == nil || f.fs == nil { return 0, fs.ErrClosed }",
+  "if f.rc != nil { if ra, ok := f.rc.(io.ReaderAt); ok { return ra.ReadAt(p, off) } return 0, fs.ErrInvalid }",
+  "if off < 0 { return 0, fs.ErrInvalid }",
+  "if off >= int64(len(f.node.data)) { return 0, io.EOF }",
+  "n = copy(p, f.node.data[off:])",
+  "return n, nil"] : List String) := by rfl
+theorem tie_stmtsTarfs_newMemFile : Generated.stmtsTarfs_newMemFile = (["m := &memFile{ node: node, fs: memfs, name: name, openMode: openMode, }",
+  "if openMode&os.O_APPEND != 0 { m.offset = int64(len(node.data)) }",
+  "if openMode&os.O_TRUNC != 0 { node.data = nil }",
+  "return m"] : List String) := by rfl
+theorem tie_stmtsTarfs_Remove : Generated.stmtsTarfs_Remove = (["parent := filepath.Dir(name)",
+  "base := filepath.Base(name)",
+  "anode, err := m.getNode(parent)",
+  "if err != nil { return err }",
+  "anode.mu.Lock()",
+  "defer anode.mu.Unlock()",
+  "if _, ok := anode.children[base]; !ok { return fs.ErrNotExist }",
+  "if anode.children[base].linkCount > 0 { anode.children[base].linkCount-- }",
+  "delete(anode.children, base)",
+  "return nil"] : List String) := by rfl
+theorem tie_stmtsTarfs_Chmod : Generated.stmtsTarfs_Chmod = (["anode, err := m.getNode(path)",
+  "if err != nil { return err }",
+  "anode.mode = perm | (anode.mode & os.ModeType)",
+  "return nil"] : List String) := by rfl
+theorem tie_subJoins : Generated.subJoins = (["Open",
+  "OpenReaderAt",
+  "OpenFile",
+  "Create",
+  "ReadFile",
+  "WriteFile",
+  "Mkdir",
+  "MkdirAll",
+  "ReadDir",
+  "Stat",
+  "Lstat",
+  "Remove",
+  "Chmod",
+  "Chown",
+  "Chtimes",
+  "Readlink",
+  "Mknod",
+  "Readnod",
+  "SetXattr",
+  "GetXattr",
+  "RemoveXattr",
+  "ListXattrs"] : List String) := by rfl
+theorem tie_subPasses : Generated.subPasses = (["Symlink",
+  "Link"] : List String) := by rfl
 
 end Apko.C17
